@@ -316,9 +316,15 @@ func (x *Exec) visitInstr(fr *frame, instr ssa.Instruction) continuation {
 			addr = new(Value)
 			fr.env[instr] = addr
 			*addr = zero(deref(instr.Type()))
+			if x.spec != nil {
+				x.spec.noteFresh(addr)
+			}
 		} else {
 			addr = fr.env[instr].(*Value)
 			x.write(addr, zero(deref(instr.Type())), nil)
+			if x.spec != nil && x.spec.fresh[addr] {
+				x.spec.noteFresh(addr) // the cells of the new zero value
+			}
 		}
 
 	case *ssa.MakeSlice:
@@ -513,6 +519,9 @@ func (x *Exec) callSSA(caller *frame, fn *ssa.Function, args []Value, env []Valu
 	for i, l := range fn.Locals {
 		fr.locals[i] = zero(deref(l.Type()))
 		fr.env[l] = &fr.locals[i]
+		if x.spec != nil {
+			x.spec.noteFresh(&fr.locals[i]) // callee locals created inside a speculation (merge.go)
+		}
 	}
 	for i, p := range fn.Params {
 		fr.env[p] = args[i]
